@@ -64,6 +64,8 @@ type Faults struct {
 	Begin    bool `json:"begin,omitempty"`
 	Lock     bool `json:"lock,omitempty"`
 	Commit   bool `json:"commit,omitempty"`
+	// CommitTop: only the Commit of an outermost transaction fails.
+	CommitTop bool `json:"commitTop,omitempty"`
 	Rollback bool `json:"rollback,omitempty"`
 	// SQL: 0 none, k = the statement with tag k fails.
 	SQL int `json:"sql,omitempty"`
@@ -393,7 +395,7 @@ func (c *FakeCtrl) Commit(_ context.Context) error {
 		return &fakeErr{class: "txdone"}
 	}
 	btx := w.txs[c.tx].btx
-	if w.faults.Commit {
+	if w.faults.Commit || (w.faults.CommitTop && w.txs[c.tx].parent == 0) {
 		w.add(Item{K: "commit", T: c.tx, R: "fail"})
 		w.closeTx(c.tx)
 		_ = btx.Rollback()
